@@ -10,3 +10,7 @@ func (e *Executor) VerifValidateAndAcquire(meta *ShellMeta) error { return e.val
 
 // VerifDangerousArgPattern returns the source text of the argument filter.
 func VerifDangerousArgPattern() string { return dangerousArgPattern.String() }
+
+// VerifExecutor returns the executor a handler was built with, so that the
+// harness can observe the configuration the agent wired into it.
+func (h *Handler) VerifExecutor() *Executor { return h.executor }
